@@ -228,6 +228,23 @@ def special_programs():
                         init, {"int": "int", "str": "str", "list": "[int...]", "obj": "int"}[t], obs, hide, place_write(w, wctx), obs)
                     src = (kclass if t == "obj" else "") + outer + "\nprint \"@start\"\nmain = fn() {\n" + ind(body) + "\n}\nmain()\n"
                     out.append(({"decl": "own-const-beside-captured-variable", "type": t, "form": (hide.split("\n")[0] if not hide.startswith("modify") else "modify") + "; " + w.split("\n")[0], "wctx": wctx}, {"main.ms": src}, exp))
+    # FREEZING a variable: a mutable variable that closures already write is declared again as a constant of the same name; after
+    # that declaration the name stands for the constant, and calling the old closures must not change what it shows
+    for t, first, init, obs, exp, writers in (
+            ("int", "C = 1", "5", "C", "5", ["modify C = C + 40", "C += 40", "C = 7\n\tmodify C = 8"]),
+            ("str", "C = \"a\"", "\"k\"", "C", "k", ["modify C = \"z\"", "C += \"z\""]),
+            ("list", "C: [int...] = [1]", "[5]", "C", "[5]", ["modify C = [9]", "C[0] = 9", "C.push(9)\n\tmodify C = [9]"]),
+            ("obj", "C = K()", "K()", "C.f", "1", ["modify C = K()", "C.f = 9", "C.f += 9"])):
+        for w in writers:
+            for freeze in ("const C = %s" % init, "const C: %s = %s" % ({"int": "int", "str": "str", "list": "[int...]", "obj": "K"}[t], init), "if true {\n\tconst C = %s\n}" % init,
+                           "const [C, cz] = [%s, 0]" % init):
+                for where in ("module", "function"):
+                    body = "%s\nwr = fn() {\n\t%s\n}\nwr()\n%s\nrd = fn() -> %s {\n\treturn %s\n}\nwr()\nprint \"@obs\"\nprint %s\nprint rd()" % (
+                        first, w, freeze, {"int": "int", "str": "str", "list": "[int...]", "obj": "int"}[t], obs, obs)
+                    if freeze.startswith("if true"):
+                        continue      # (a constant of an inner block does not rename the outer variable: nothing to observe)
+                    src = (kclass if t == "obj" else "") + "print \"@start\"\n" + (body if where == "module" else "main = fn() {\n" + ind(body) + "\n}\nmain()") + "\n"
+                    out.append(({"decl": "freeze-after-capture/" + where, "type": t, "form": freeze.split(" = ")[0] + "; " + w.split("\n")[0], "wctx": "closure-made-before"}, {"main.ms": src}, exp))
     return out
 
 
